@@ -24,7 +24,7 @@ ENCODED = ['bob.scm.git.GitScm.__init__', 'bob.scm.git.GitScm.asDigestScript', '
            'bob.input.CoreStep.getDigest', 'bob.input.RecipeSet.parse']
 STUBS = ['tty output discarded']
 ASSUMPTIONS = ['attribute values contain no blanks (the digest formats separate fields by blanks)']
-BOUNDS = ('git: 2 urls x {2 branches, 2 tags, 2 commits, 2 refs} x 2 dirs x {no, all, [a], [a,b]} submodules x recursive; '
+BOUNDS = ('git: 2 urls x {2 branches, 2 tags, 2 commits, 2 refs, branch+tag (2), branch+commit} x 2 dirs x {no, all, [a], [a,b]} submodules x recursive; '
           'url: 2 urls x {no, 2 sha1, sha256} digests x 2 dirs x 2 file names x 3 extract modes x strip 0/1 x file mode; import: 2 paths x 2 dirs; '
           'plus a second SCM in another directory; every pair of specifications of one kind that differ in one attribute (thorough: up to two)')
 
@@ -32,7 +32,9 @@ C1, C2 = 'a' * 40, 'b' * 40
 GIT = [dict(url=u, dir=d, sub=s, rec=r, **rev)
        for u in ('file:///u1.git', 'file:///u2.git')
        for rev in (dict(branch='b1'), dict(branch='b2'), dict(tag='t1'), dict(tag='b1'), dict(commit=C1), dict(commit=C2),
-                   dict(rev='refs/x/y'), dict(rev='refs/heads/b1'))
+                   dict(rev='refs/x/y'), dict(rev='refs/heads/b1'),
+                   # several revision attributes at once (scmDefaults + recipe, commit-on-branch): commit > tag > branch
+                   dict(branch='b1', tag='t1'), dict(branch='b1', tag='b1'), dict(branch='b1', commit=C1))
        for d in ('.', 'sub')
        for s in (None, True, ['a'], ['a', 'b'])
        for r in ((False, True) if s else (False,))]
